@@ -367,6 +367,21 @@ class E1Session(SessionBase):
             return {'kind': f'refused:{type(e).__name__}'}
         finally:
             TAP.reset()
+        # the figures every transceiver on the path *reports* (source included) obey the identity
+        for trx in (path[0], path[-1]):
+            if getattr(trx, 'snr', None) is None:
+                continue
+            shapes = {np.shape(np.array(getattr(trx, a), dtype=float)) for a in ('snr', 'osnr_ase', 'osnr_nli')}
+            if len(shapes) != 1:
+                raise Violation('C01', 'reported-figures-have-different-channel-counts', f'{trx.uid}: {sorted(shapes)}')
+            with np.errstate(divide='ignore', invalid='ignore', over='ignore'):
+                l_ = 10 ** (-np.array(trx.snr, dtype=float) / 10)
+                r_ = 10 ** (-np.array(trx.osnr_ase, dtype=float) / 10) + 10 ** (-np.array(trx.osnr_nli, dtype=float) / 10)
+            if not np.allclose(l_, r_, rtol=1e-6, atol=0):
+                raise Violation('C01', 'reported-figures-break-gsnr-identity',
+                                f'{trx.uid}: GSNR {np.round(np.array(trx.snr, dtype=float)[:2], 3)} OSNR_ASE '
+                                f'{np.round(np.array(trx.osnr_ase, dtype=float)[:2], 3)} SNR_NLI '
+                                f'{np.round(np.array(trx.osnr_nli, dtype=float)[:2], 3)}')
         rx = path[-1]
         with np.errstate(divide='ignore', invalid='ignore'):
             lhs = 10 ** (-np.array(rx.raw_snr, dtype=float) / 10)
